@@ -37,8 +37,7 @@ def writer_headers_rule(F, rep, M):
     # the port byte and follower flag written are those of the character being written
     for fn in ("write_pre", "write_post"):
         bd = F.body("frame::immutable::slippi::<impl frame::immutable::Data>::" + fn)
-        txt = tir.pretty(bd["tir"]["value"])
-        ok = "w.write_i32(frame_id)?" in txt and "w.write_u8((port.port as u8))?" in txt and "match port.follower {True => 1; _ => 0}" in txt
+        ok = header_values_ok(bd)
         rep.ob("H.writer-values", ok, "Data::" + fn, "header-values", "the header must carry the frame id, the port number and the follower flag of the character written")
         pd = F.body("frame::immutable::slippi::<impl frame::immutable::PortData>::" + fn)
         t2 = tir.pretty(pd["tir"]["value"])
@@ -70,14 +69,114 @@ def raw_blocks_rule(F, rep):
     rep.ob("raw.no-other-writer", not writers, "game::Bytes", "writers", "the retained raw blocks are modified at %s" % writers[:3])
 
 
+def gecko_reemit_ok(w):
+    """while pos < actual { 0x10; bytes[pos..pos+512]; min(512, actual - pos) as u16; 0x3D; pos += 512; (pos >= actual) as u8 }"""
+    import flow
+    import linear
+    root = w["tir"]["value"]
+    wname = w["tir"]["params"][0].get("name")
+    env = tir.LetEnv(root)
+    loops = [n for n in tir.walk(root) if n.get("k") == "Loop"]
+    if len(loops) != 1:
+        return False
+    lp = loops[0]
+    incs = [x for x in tir.walk(lp) if x.get("k") == "AssignOp" and x.get("op") in ("Add", "AddAssign") and strip(x["l"]).get("k") == "Path" and tir.lit_int(x["r"]) == 512]
+    if len(incs) != 1:
+        return False
+    pos_id = strip(incs[0]["l"]).get("id")
+    if [x for x in tir.walk(lp) if x.get("k") in ("Assign", "AssignOp") and strip(x["l"]).get("id") == pos_id and x is not incs[0]]:
+        return False
+
+    def is_pos(e):
+        return strip(e).get("k") == "Path" and strip(e).get("id") == pos_id
+
+    def is_actual(e):
+        r = env.resolve(e)
+        while r.get("k") == "Cast":
+            r = strip(r["e"])
+        return (tir.place(r) or "").endswith(".actual_size")
+
+    def pos_ge_actual(c, negate=False):
+        c = strip(c)
+        if c.get("k") == "Unary" and c.get("op") == "Not":
+            return pos_ge_actual(c["e"], not negate)
+        if c.get("k") != "Binary":
+            return False
+        op, l, r = c.get("op"), c["l"], c["r"]
+        if negate:
+            op = {"Lt": "Ge", "Ge": "Lt", "Gt": "Le", "Le": "Gt"}.get(op)
+        return (op == "Ge" and is_pos(l) and is_actual(r)) or (op == "Le" and is_actual(l) and is_pos(r))
+    # loop condition: pos < actual_size  (the While desugaring is `if cond { body } else { break }`)
+    conds = [x["cond"] for x in tir.walk(lp) if x.get("k") == "If" and any(y.get("k") == "Break" for y in tir.walk(x.get("else") or {}))]
+    if len(conds) != 1 or not pos_ge_actual(conds[0], negate=True):
+        return False
+    seq = flow.ordered_calls(lp, lambda n: (n.get("k") == "MethodCall" and n["method"].startswith("write_") and L.local_name(n["recv"]) == wname))
+    ws = [c for g, c in seq]
+    if [x["method"] for x in ws] != ["write_u8", "write_all", "write_u16", "write_u8", "write_u8"]:
+        return False
+
+    def event_code(e, name):
+        e = strip(e)
+        return e.get("k") == "Cast" and (strip(e["e"]).get("path") or "").endswith("Event::" + name)
+    ok = event_code(ws[0]["args"][0], "MessageSplitter") and event_code(ws[3]["args"][0], "GeckoCodes")
+    sl = strip(ws[1]["args"][0])
+    if not (sl.get("k") == "Index" and (tir.place(sl["base"]) or "").endswith(".bytes")):
+        return False
+    rg = strip(sl["index"])
+    f = {x["name"]: x["e"] for x in rg.get("fields", [])} if rg.get("k") == "Struct" else {}
+    try:
+        pname = strip(incs[0]["l"]).get("name")
+        ok = ok and is_pos(f.get("start") or {}) and linear.lin(f.get("end") or {}) == {pname: 1, "": 512}
+    except linear.NonLinear:
+        return False
+    sz = strip(ws[2]["args"][0])
+    while sz.get("k") == "Cast":
+        sz = strip(sz["e"])
+    margs = None
+    if sz.get("k") == "Call" and (declared(sz) or "").endswith("cmp::min") and len(sz["args"]) == 2:
+        margs = sz["args"]
+    elif sz.get("k") == "MethodCall" and sz["method"] == "min" and len(sz["args"]) == 1:
+        margs = [sz["recv"], sz["args"][0]]
+    if margs is None:
+        return False
+
+    def is_rest(e):
+        e = strip(e)
+        return e.get("k") == "Binary" and e.get("op") == "Sub" and is_actual(e["l"]) and is_pos(e["r"])
+    ok = ok and ((tir.lit_int(margs[0]) == 512 and is_rest(margs[1])) or (tir.lit_int(margs[1]) == 512 and is_rest(margs[0])))
+    # the final flag is (pos >= actual) evaluated after the increment
+    fl = strip(ws[4]["args"][0])
+    if fl.get("k") == "Call" and (declared(fl) or "").endswith("From::from") and len(fl["args"]) == 1:
+        fl = strip(fl["args"][0])
+    elif fl.get("k") == "Cast":
+        fl = strip(fl["e"])
+    fl = env.resolve(fl)
+    ok = ok and pos_ge_actual(fl)
+    # position of the increment: after the 4th write, before the 5th (source order within the loop body)
+    order = [id(x) for x in tir.walk(lp)]
+    try:
+        ok = ok and order.index(id(ws[3])) < order.index(id(incs[0])) < order.index(id(ws[4]))
+    except ValueError:
+        return False
+    return bool(ok)
+
+
 def gecko_rule(F, rep):
     b = F.body("io::slippi::de::handle_splitter_event")
     txt = tir.pretty(b["tir"]["value"])
-    rep.ob("gecko.keep-block", "accumulator.raw.extend_from_slice(&buf[std::ops::Range {start: 0, end: 512}])" in txt, "io::slippi::de::handle_splitter_event", "block", "the reader must keep all 512 bytes of every splitter block")
+    keep = False
+    for x in tir.walk(b["tir"]["value"]):
+        if x.get("k") == "MethodCall" and x["method"] in ("extend_from_slice", "extend", "write_all") and (tir.place(x["recv"]) or "").endswith(".raw") and len(x["args"]) == 1:
+            a = strip(x["args"][0])
+            if a.get("k") == "MethodCall" and a["method"] in ("iter", "copied", "cloned"):
+                a = strip(a["recv"])
+            rg = strip(a.get("index") or {}) if a.get("k") == "Index" else {}
+            f = {y["name"]: y["e"] for y in rg.get("fields", [])} if rg.get("k") == "Struct" else {}
+            if a.get("k") == "Index" and strip(a["base"]).get("k") == "Path" and tir.lit_int(f.get("start") or {}) == 0 and tir.lit_int(f.get("end") or {}) == 512:
+                keep = True
+    rep.ob("gecko.keep-block", keep, "io::slippi::de::handle_splitter_event", "block", "the reader must keep all 512 bytes of every splitter block")
     w = F.body("io::slippi::ser::gecko_codes")
-    t = tir.pretty(w["tir"]["value"])
-    ok = ("w.write_all(&codes.bytes[std::ops::Range {start: pos, end: (pos Add 512)}])?" in t and "w.write_u16((std::cmp::min(512, (actual_size Sub pos)) as u16))?" in t
-          and "w.write_u8((io::slippi::de::Event::GeckoCodes as u8))?" in t and "pos AddAssign= 512" in t and "w.write_u8(std::convert::From::from((pos Ge actual_size)))?" in t)
+    ok = gecko_reemit_ok(w)
     rep.ob("gecko.re-emit", ok, "io::slippi::ser::gecko_codes", "block", "the writer must re-emit 512-byte blocks with size min(512, actual - pos), the wrapped code and the final flag")
     b2, m, arms = events.find_dispatch(F)
     ok = False
@@ -101,6 +200,32 @@ def gecko_rule(F, rep):
     users = sorted(set(users) - set(setters))
     rep.ob("double-end.single-setter", setters == ["io::slippi::de::read"], "game::Quirks::double_game_end", "setter", "double_game_end is set in %s" % setters)
     rep.ob("double-end.consumers", set(users) >= {"io::slippi::ser::PayloadSizes::raw_size", "io::slippi::ser::write"}, "game::Quirks::double_game_end", "consumers", "double_game_end must be consumed by both raw_size and write; used in %s" % users)
+
+
+def header_values_ok(bd):
+    """write_pre/write_post emit, in this order, the frame id (i32), the port number (u8) and the follower flag (u8: 1 iff port.follower)"""
+    ps = bd["tir"]["params"]
+    names = [p.get("name") for p in ps]
+    writes = [x for x in tir.walk(bd["tir"]["value"]) if x.get("k") == "MethodCall" and x["method"] in ("write_i32", "write_u8") and len(x.get("args", [])) == 1]
+    first = next((i for i, w in enumerate(writes) if w["method"] == "write_i32"), None)
+    if first is None or len(writes) < first + 3:
+        return False
+    writes = writes[first:]
+    a0, a1, a2 = (strip(w["args"][0]) for w in writes[:3])
+    ok_id = writes[0]["method"] == "write_i32" and a0.get("k") == "Path" and a0.get("res") == "local" and a0.get("ty") == "i32"
+    p1 = a1["e"] if a1.get("k") == "Cast" else a1
+    ok_port = writes[1]["method"] == "write_u8" and (tir.place(p1) or "").endswith(".port")
+    port_var = (tir.place(p1) or "").rsplit(".", 1)[0]
+    ok_fol = False
+    if writes[2]["method"] == "write_u8":
+        bb = tir.bool_branch(a2)
+        if bb is not None and bb[2] is not None and tir.place(bb[0]) == port_var + ".follower":
+            ok_fol = tir.lit_int(L.strip_try(bb[1])) == 1 and tir.lit_int(L.strip_try(bb[2])) == 0
+        elif a2.get("k") == "Cast" and tir.place(a2["e"]) == port_var + ".follower":
+            ok_fol = True      # bool as u8 is 1/0
+        elif a2.get("k") == "Call" and (declared(a2) or "").endswith("From::from") and tir.place(a2["args"][0]) == port_var + ".follower":
+            ok_fol = True
+    return ok_id and ok_port and ok_fol
 
 
 def run(F, rep, tier):
